@@ -103,7 +103,33 @@ let show_out (s : st) =
   | [] -> "-"
   | l -> String.concat "|" (List.map show_ev l)
 
+let show_fin = function
+  | FFuel -> "fuel"
+  | FUnmod -> "unmod"
+  | FOk (_, s) -> "ok " ^ string_of_z s.status ^ " " ^ show_out s
+  | FErr (_, s) -> "err " ^ show_out s
+
+(* hist <fuel> G <n> <hex>*n <program> K <k> (<noargvars> A .. I .. F .. C ..)*k
+   answer: the k answers of script_history, separated by " ;; " *)
+let handle_hist rest =
+  toks := Array.of_list rest; pos := 0;
+  try
+    let fuel = p_int () in
+    expect "G"; let globals = p_list p_hex in
+    let prog = p_prog () in
+    expect "K";
+    let runs = p_list (fun () ->
+      let nav = next () = "1" in
+      expect "A"; let args = p_list p_hex in
+      expect "I"; let stdin_recs = p_list p_hex in
+      expect "F"; let files = p_list p_named in
+      expect "C"; let cmds = p_list p_named in
+      (({ fs = files; cmds = cmds; globals = globals; noargvars = nav }, args), stdin_recs)) in
+    String.concat " ;; " (List.map show_fin (script_history prog (nat_of_int fuel) runs))
+  with Parse m -> "driver-error parse " ^ m
+
 let handle = function
+  | "hist" :: rest -> handle_hist rest
   | "run" :: rest ->
       toks := Array.of_list rest; pos := 0;
       (try
